@@ -2,18 +2,6 @@
 from ..props import prop
 
 prop(
-    "C03",
-    level="other",
-    level_text="bounded: soundness kernel of wait_for_acknowledgments (is_change_acknowledged over <=3 reader proxies, "
-               "ACKNACK handling) decided by Kani for all proxy states; completion after reader departure decided as one "
-               "worker step on a constructed participant.",
-    level_note="trusted: Kani/CBMC; bounds <=3 proxies, <=3 changes; the async wait loop itself is outside",
-    explanation="see DESIGN.md section 5 / C03",
-    bounds="<= 3 reader proxies, <= 3 changes",
-    outside="the async polling loop of wait_for_acknowledgments and real timing",
-)
-
-prop(
     "C35",
     ready=True,
     level="other",
